@@ -50,12 +50,21 @@ func NewCopyOnWriteArrayListOf[T any](ts []T) *CopyOnWriteArrayList[T] {
 	}
 }
 
+// snapshot 在持有锁的情况下读取当前的底层切片。
+// 写操作总是替换整个切片而不修改旧切片，所以拿到的快照可以在锁外安全读取。
+func (a *CopyOnWriteArrayList[T]) snapshot() []T {
+	a.mutex.Lock()
+	defer a.mutex.Unlock()
+	return a.vals
+}
+
 func (a *CopyOnWriteArrayList[T]) Get(index int) (t T, e error) {
-	l := a.Len()
+	vals := a.snapshot()
+	l := len(vals)
 	if index < 0 || index >= l {
 		return t, errs.NewErrIndexOutOfRange(l, index)
 	}
-	return a.vals[index], e
+	return vals[index], e
 }
 
 // Append 往CopyOnWriteArrayList里追加数据
@@ -125,15 +134,15 @@ func (a *CopyOnWriteArrayList[T]) Delete(index int) (T, error) {
 }
 
 func (a *CopyOnWriteArrayList[T]) Len() int {
-	return len(a.vals)
+	return len(a.snapshot())
 }
 
 func (a *CopyOnWriteArrayList[T]) Cap() int {
-	return cap(a.vals)
+	return cap(a.snapshot())
 }
 
 func (a *CopyOnWriteArrayList[T]) Range(fn func(index int, t T) error) error {
-	for key, value := range a.vals {
+	for key, value := range a.snapshot() {
 		e := fn(key, value)
 		if e != nil {
 			return e
